@@ -207,7 +207,7 @@ def hand_packages(rng):
     out.append(H.build_new_pkg([H.hand_struct("Alpha", [H.hand_field("name", "string"), H.hand_field("id")]),
                                 H.hand_struct("Beta", [H.hand_field("label", "string"), H.hand_field("n")]),
                                 H.hand_struct("Gamma", [H.hand_field("kind"), H.hand_field("note", "string")])],
-                               ["-getset"], star=True, extra_feats=["hand-shrink"]))
+                               ["-getset", "-json"], star=True, extra_feats=["hand-shrink"]))   # -json + -type=*: the generated helper struct must not become input
     # embedder declared / listed before the embedded shoot type (F_embedderFirst)
     e = H.hand_struct("Echo", [H.hand_field("name", "string")])
     a = H.hand_struct("Alpha", [H.hand_embed(e), H.hand_field("id")])
